@@ -52,11 +52,10 @@ pub mod valid {
                 _ => ()
             }
         }
-        // SAFETY: `bytes` here os obviously ASCII
-        Ok(match crate::percent_decode(bytes) {
-            Cow::Borrowed(b) => Cow::Borrowed(unsafe {std::str::from_utf8_unchecked(b)}),
-            Cow::Owned(b) => Cow::Owned(unsafe {String::from_utf8_unchecked(b)})
-        })
+        // `bytes` here is ASCII, but what it is percent-decoded to
+        // can be any byte sequence (e.g. `%FF`): check that it's UTF-8
+        crate::percent_decode_utf8(bytes)
+            .map_err(|_| serde::de::Error::custom("invalid Cookie value: not UTF-8"))
     }
 }
 
@@ -500,7 +499,7 @@ const _: () = {
         fn variant_seed<V>(self, seed: V) -> Result<(V::Value, Self::Variant), Self::Error>
         where V: serde::de::DeserializeSeed<'de> {
             Ok((
-                seed.deserialize(self.de.next_section().unwrap().into_deserializer())?,
+                seed.deserialize(self.de.next_section()?.into_deserializer())?,
                 self,
             ))
         }
